@@ -221,8 +221,13 @@ def run(tier):
     behs = [b for b in behs if not (json.dumps(b["prog"]) in seen or seen.add(json.dumps(b["prog"])))]
     run_matrix(check, wp, behs, "E")
     check.cov["matrix_E_files"] = len(behs)
+    # matrix F (name shapes): names that spell an import kind in front of another alias (Functionf next to "use function R\f",
+    # constC next to "use const R\C"): the three import tables are separate whatever the names look like
+    behs = behaviours(check, a_sites + ["param_type"], ["f", "C", "Functionf", "functionf", "ConstC", "constC"], ["unq", "qual"], 1, 1, 1, "matrix F: kind words inside names")
+    run_matrix(check, wp, behs, "F")
+    check.cov["matrix_F_files"] = len(behs)
     check.cov["traces_validated_against_impl"] = check.cov["evaluations"]
     check.assumptions += ["NsResolver.tla: my reading of PHP's name resolution rules; rendering templates per site in vf/c14.py",
                           "special names are compared case-insensitively (the property says 'left unqualified')"]
     return check.finish({"exhaustive": True, "rule": "TLC enumerates every file of the factorised matrices A (rules), B (sites), C (special names), "
-                                                     "D (sections/declarations), E (imports between references); distinct = distinct rendered files"})
+                                                     "D (sections/declarations), E (imports between references), F (name shapes); distinct = distinct rendered files"})
